@@ -37,18 +37,30 @@ theorem abs_init (hp : p.WF) : abs p (initState p) = SpecState.init := by
   subst hec; subst hess
   rw [r.abs_eq hp]; rfl
 
-/-- **T1 (refinement, one step)** every operation keeps the invariant and is a step of the
-specification: `abs (step s op)` is what the spec allows after `op` from `abs s`. -/
+/-- the store keeps its invariant under every operation raft may issue, and a `Save` does
+entries, hard state and snapshot each on its own (`saveKeep`) — installs included -/
+theorem save_abs (hp : p.WF) (s : State) (hinv : Inv p s) (hs : Option HardState) (ents : List Entry) (sn : Option Snapshot)
+    (hok : SaveOK p (abs p s) ents) :
+    Inv p (save p s hs ents sn) ∧ abs p (save p s hs ents sn) = (abs p s).saveKeep hs ents sn := by
+  obtain ⟨a, ess, ec, r⟩ := hinv
+  rw [r.abs_eq hp] at hok ⊢
+  obtain ⟨a', ess', ec', r', h⟩ := r.save_ok hp hs ents sn hok
+  exact ⟨⟨a', ess', ec', r'⟩, by rw [r'.abs_eq hp]; exact h⟩
+
+/-- **T1 (refinement, one step) — `_partial`** every operation keeps the invariant and is a
+step of the specification: `abs (step s op)` is what the spec allows after `op` from `abs s`.
+The hypothesis `OpOK` is what raft guarantees about a `Save` plus `noInstall`, which excludes
+exactly the known finding `snapshot_install_keeps_old_entries` (see `refinement_step_full`). -/
 theorem refinement_step (hp : p.WF) (s : State) (hinv : Inv p s) (op : Op) (hop : OpOK p (abs p s) op) :
     Inv p (step p s op) ∧ (abs p s).next op (abs p (step p s op)) := by
-  obtain ⟨a, ess, ec, r⟩ := hinv
-  rw [r.abs_eq hp] at hop ⊢
   cases op with
   | save hs ents sn =>
-    obtain ⟨a', ess', ec', r', h⟩ := r.save_ok hp hs ents sn hop
+    obtain ⟨h1, h2⟩ := save_abs hp s hinv hs ents sn hop.1
     simp only [step, SpecState.next]
-    exact ⟨⟨a', ess', ec', r'⟩, by rw [r'.abs_eq hp]; exact h⟩
+    exact ⟨h1, by rw [h2, (abs p s).save_eq_keep hs ents sn hop.2]⟩
   | mksnap i sn =>
+    obtain ⟨a, ess, ec, r⟩ := hinv
+    rw [r.abs_eq hp]
     obtain ⟨hok, herr⟩ := r.mksnap_ok i sn
     simp only [step, SpecState.next]
     match hc : (absOf a ess ec s.mt).createSnapshot i sn with
@@ -60,12 +72,43 @@ theorem refinement_step (hp : p.WF) (s : State) (hinv : Inv p s) (op : Op) (hop 
       rw [herr e hc]
       exact ⟨⟨a, ess, ec, r⟩, by rw [r.abs_eq hp]⟩
   | delBefore i =>
+    obtain ⟨a, ess, ec, r⟩ := hinv
+    rw [r.abs_eq hp]
     obtain ⟨a', ess', r', f', h1, h2⟩ := r.delete_before i
     exact ⟨⟨a', ess', ec, r'⟩, f', h1, by rw [r'.abs_eq hp]; exact h2⟩
   | reopen =>
+    obtain ⟨a, ess, ec, r⟩ := hinv
+    rw [r.abs_eq hp]
     obtain ⟨s', h0, a', ess', r', f', h1, h2⟩ := r.reopen_ok hp
     simp only [step, h0]
     exact ⟨⟨a', ess', ec, r'⟩, f', h1, by rw [r'.abs_eq hp]; exact h2⟩
+
+/-- a small geometry: 2 slots per file -/
+def p0 : Params := { cap := 2, dataOff := 100, maxSize := 140 }
+theorem p0_wf : p0.WF := by constructor <;> decide
+
+/-- **T1 at full strength** (no `noInstall`): every `Save` raft may issue, snapshot installs
+included, is a step of the specification. -/
+def refinement_step_full (p : Params) : Prop :=
+  ∀ (s : State), Inv p s → ∀ (op : Op), OpOKBase p (abs p s) op →
+    Inv p (step p s op) ∧ (abs p s).next op (abs p (step p s op))
+
+/-- The store violates the full statement (known finding `snapshot_install_keeps_old_entries`):
+saving a snapshot with index 5 into an empty store must leave FirstIndex = 6 (the log is
+replaced by the snapshot); the store answers 1.  With entries present the real store keeps
+serving them and, after the next append, returns a range with a gap — probed on the real code:
+save 1…50, save snapshot 100, save 101…102, `Entries(45,103)` = 45…50,101,102. -/
+theorem refinement_step_full_fails : ¬ refinement_step_full p0 := by
+  intro h
+  have hok : SaveOK p0 (abs p0 (initState p0)) [] :=
+    ⟨fun e he => by simp at he, fun e0 rest h => by simp at h, fun e0 rest h => by simp at h⟩
+  have h1 := (h (initState p0) (inv_init p0_wf) (.save none [] (some ⟨5, 1, true, "e", "e"⟩)) hok).2
+  have h2 := (save_abs p0_wf (initState p0) (inv_init p0_wf) none [] (some ⟨5, 1, true, "e", "e"⟩) hok).2
+  simp only [SpecState.next, step] at h1
+  rw [h2, abs_init p0_wf] at h1
+  have := congrArg SpecState.first h1
+  revert this
+  decide
 
 /-- **T1 (answers)** in every reachable state FirstIndex, LastIndex, Term(i) and
 Entries(lo,hi,maxSize) — values, `compacted`, `unavailable`, size limit — are the spec's. -/
@@ -89,7 +132,7 @@ theorem refinement_mksnap_result (hp : p.WF) (s : State) (hinv : Inv p s) (i : N
   | .ok σ' => obtain ⟨s', h1, _, _⟩ := hok σ' hc; rw [h1]; rfl
   | .error e => rw [herr e hc]; rfl
 
-/-- a history all of whose saves respect what raft guarantees -/
+/-- a history all of whose saves respect what raft guarantees (and install no snapshot) -/
 def TraceOK (p : Params) : State → List Op → Prop
   | _, [] => True
   | s, op :: ops => OpOK p (abs p s) op ∧ TraceOK p (step p s op) ops
@@ -121,8 +164,8 @@ theorem refinement_from_init (hp : p.WF) (ops : List Op) (ht : TraceOK p (initSt
   rwa [abs_init hp] at this
 
 theorem SpecState.save_ents (σ : SpecState) (hs : Option HardState) (new : List Entry) (sn : Option Snapshot) :
-    (σ.save hs new sn).ents = (σ.append new).ents ∧ (σ.save hs new sn).first = (σ.append new).first := by
-  simp only [SpecState.save, SpecState.setSnapshot, SpecState.setHardState]
+    (σ.saveKeep hs new sn).ents = (σ.append new).ents ∧ (σ.saveKeep hs new sn).first = (σ.append new).first := by
+  simp only [SpecState.saveKeep, SpecState.setSnapshot, SpecState.setHardState]
   cases sn with
   | none => cases hs with
     | none => exact ⟨rfl, rfl⟩
@@ -139,8 +182,7 @@ theorem append_conflict_truncates (hp : p.WF) (s : State) (hinv : Inv p s) (hs :
     (abs p (save p s hs (e0 :: rest) sn)).ents = (abs p s).ents.take (e0.index - (abs p s).first) ++ (e0 :: rest) ∧
     (abs p (save p s hs (e0 :: rest) sn)).first = (abs p s).first ∧
     (∀ e ∈ (abs p s).ents.take (e0.index - (abs p s).first), e.index < e0.index) := by
-  have h := (refinement_step hp s hinv (.save hs (e0 :: rest) sn) hok).2
-  simp only [SpecState.next, step] at h
+  have h := (save_abs hp s hinv hs (e0 :: rest) sn hok).2
   obtain ⟨a, ess, ec, r⟩ := hinv
   have hemp : (abs p s).ents.isEmpty = false := by simp [hne]
   rw [h]
@@ -262,9 +304,6 @@ theorem zeroing_asWritten_loses_first_payload (hp : p.WF) (f : LogFile) (e : Ent
 
 /-! ### non-vacuity -/
 
-/-- a small geometry: 2 slots per file -/
-def p0 : Params := { cap := 2, dataOff := 100, maxSize := 140 }
-theorem p0_wf : p0.WF := by constructor <;> decide
 
 def ent (t i : Nat) (d : List UInt8) : Entry := ⟨t, i, 0, ⟨d.toArray⟩⟩
 
@@ -298,8 +337,7 @@ theorem save1_ok : SaveOK p0 (abs p0 (initState p0)) save1 := by
 /-- the abstract state after the first save, by the refinement theorem (not by evaluation) -/
 theorem abs_after_save1 : (abs p0 (save p0 (initState p0) none save1 none)).ents = save1 ∧
     (abs p0 (save p0 (initState p0) none save1 none)).first = 1 := by
-  have h := (refinement_step p0_wf (initState p0) (inv_init p0_wf) (.save none save1 none) save1_ok).2
-  simp only [SpecState.next, step] at h
+  have h := (save_abs p0_wf (initState p0) (inv_init p0_wf) none save1 none save1_ok).2
   rw [h, abs_init p0_wf]
   exact ⟨rfl, rfl⟩
 
